@@ -140,7 +140,7 @@ Proof.
   unfold M, assoc_mem in Hm. destruct (assoc_get nm (globs st)) as [v|] eqn:Eg; [|discriminate].
   apply assoc_get_key in Eg. destruct (finalize_facts st) as [_ [_ [_ Hext]]].
   destruct (gext_in_l _ _ _ _ _ Hext Eg) as [v' [Hv' Hvx]].
-  exists (mkW nm (is_some (v_func v')) (v_loc v')). split; [|split; [reflexivity|]].
+  exists (mkW nm (is_some (v_func v')) (v_loc v') (v_gflag v')). split; [|split; [reflexivity|]].
   - unfold file_wsyms. apply in_or_app. left. apply in_flat_map. exists (nm, v').
     split; [exact Hv'|]. left. reflexivity.
   - intros pt Hc. destruct (analyse_post _ _ _ _ _ Hc Ha0) as [[_ HG] _]. specialize (HG _ Eg).
